@@ -48,6 +48,14 @@ pub struct Cfg {
     pub max_error_count: u32,
     /// handshake version the initiator proposes and the responder accepts (15 enables Leios)
     pub version: u64,
+    /// what the responder's Accept says about peer sharing: 1 = on (the default), 0 = negotiated off (`Some(0)`),
+    /// 2 = the field is absent. With it off the peer-sharing protocol is not part of the connection.
+    #[serde(default = "one")]
+    pub accept_peer_sharing: u8,
+}
+
+fn one() -> u8 {
+    1
 }
 
 #[derive(Clone, Copy, PartialEq, Eq, Debug)]
@@ -367,6 +375,13 @@ impl World {
                         self.hidden[4] += 1;
                     }
                     let ok = sp.agency(st) == Agency::Client && sp.next(st, &variant).is_some();
+                    if pr == "peersharing" && self.cfg.accept_peer_sharing != 1 && check_wire {
+                        // the responder negotiated peer sharing off: it does not run that mini-protocol at all
+                        return Err(Violation {
+                            sig: format!("c28:peersharing:{variant}:not-negotiated"),
+                            msg: format!("after {op:?} the initiator emits peersharing::{variant} to {p} although the accepted version data switched peer sharing off"),
+                        });
+                    }
                     if ok {
                         self.wire[iu].insert(pr, sp.next(st, &variant).unwrap());
                         *self.unconfirmed[iu].entry(pr).or_insert(0) += 1;
@@ -413,6 +428,7 @@ impl World {
 
     fn responder_message(&self, pr: &str, variant: &str, c: u8) -> AnyMessage {
         let r = match (pr, variant) {
+            ("handshake", "Accept") if self.cfg.accept_peer_sharing != 1 => MsgR::HsAcceptPs(self.cfg.version, proto::MAINNET_MAGIC, self.cfg.accept_peer_sharing),
             ("handshake", "Accept") => MsgR::HsAccept(self.cfg.version, proto::MAINNET_MAGIC),
             ("handshake", "Refuse") => MsgR::HsRefuse(c),
             ("handshake", "QueryReply") => MsgR::HsQueryReply(vec![(self.cfg.version, proto::MAINNET_MAGIC)]),
